@@ -103,6 +103,14 @@ def check_copy(ctx, path_in, path_out, task, strip_logs=False, strip_basins=Fals
             skipl = {n for n in li if li[n].shape[0] == 0 or TASK_LOG.match(n)}
             d, extra = h5equiv.compare_group(li, lo, "/logs", skip=skipl) if li else ([], list(lo))
             diffs += d
+            # command logs of earlier runs may be renamed (archived) but must not be lost
+            for n in li:
+                if TASK_LOG.match(n) and li[n].shape[0]:
+                    base = n.split("_")[0]
+                    want = h5equiv._strings(li[n])
+                    if not any(m.startswith(base) and h5equiv._strings(lo[m]) == want
+                               for m in lo):
+                        diffs.append({"where": f"/logs/{n}", "earlier_command_log_lost": True})
             for e in extra:
                 if not TASK_LOG.match(e):
                     diffs.append({"where": f"/logs/{e}", "extra_in_output": True})
